@@ -367,7 +367,11 @@ func c19Version(cfg *world.Config, v *version, acc *pairAcc, st *c19Stats) {
 		root := c.root
 		var t *mast.Mast
 		r := guardRes(func() (err error) { t, err = root.LoadMast(ctx, rc); return })
-		desc := []string{fmt.Sprintf("version %v (height %d, %s)", v.c, v.root.Height, cfg.Format), "perturbation: " + c.name}
+		vdesc := fmt.Sprint(v.c)
+		if len(v.c.M) > 12 {
+			vdesc = fmt.Sprintf("all %d keys of %s", len(v.c.M), cfg.Name)
+		}
+		desc := []string{fmt.Sprintf("version %s (height %d, %s)", vdesc, v.root.Height, cfg.Format), "perturbation: " + c.name}
 		// the same mismatch must also be rejected when a shared node cache already holds the
 		// (unperturbed) top node: only for perturbations that leave the stored bytes alone
 		// (clauses about the stored bytes - undecodable, counts, missing - are not judged here: a
@@ -481,6 +485,34 @@ func C19(run *report.Run) {
 		}
 		parallelFor(len(vs), func(i int) { c19Version(cfg, vs[i], acc, st) })
 		run.Parts = append(run.Parts, map[string]interface{}{"config": cfg.Name, "versions": len(vs)})
+	}
+	// top nodes with hundreds of keys (a count that wraps an 8-bit or overflows a small buffer must not let a root
+	// through): 255, 256, 257 and 512 keys of layer 0 in one node at branch factor 16 (heights perturbed upwards),
+	// and 256 keys that are multiples of 4 but not of 16 at branch factor 4 (all in the top node of a height-1
+	// tree; read with branch factor 16 their layers drop below the recorded height)
+	for _, wc := range []struct {
+		bf   uint
+		n    int
+		step uint
+		off  uint
+	}{{16, 255, 2, 1}, {16, 256, 2, 1}, {16, 257, 2, 1}, {16, 512, 2, 1}, {4, 256, 16, 4}} {
+		var keys []interface{}
+		for i := 0; i < wc.n; i++ {
+			keys = append(keys, wc.off+uint(i)*wc.step)
+		}
+		cfg := world.UintCfg(wc.bf, keys, 1, ref.FormatBinary, "none")
+		cfg.Name = fmt.Sprintf("wide-top-node/%d uint keys from %d step %d/bf%d", wc.n, wc.off, wc.step, wc.bf)
+		all := make([]int, wc.n)
+		for i := range all {
+			all[i] = i
+		}
+		v, err := buildSubsetVersion(cfg, all, 0)
+		if err != nil {
+			run.HarnessError("%s: %v", cfg.Name, err)
+			continue
+		}
+		c19Version(cfg, v, acc, st)
+		run.Parts = append(run.Parts, map[string]interface{}{"config": cfg.Name, "versions": 1, "height": v.root.Height, "nodes": len(v.reach)})
 	}
 	acc.flush(run)
 	run.Evals = st.cases
